@@ -44,6 +44,13 @@ enum websocket_callback_return binary_received_comp(bool is_compressed, struct w
 enum websocket_callback_return binary_frame_received_comp(bool is_compressed, struct websocket *s, uint8_t *msg, size_t length, bool is_last_frame,
                                enum websocket_callback_return(*binary_frame_received)(struct websocket *s, uint8_t *msg, size_t length, bool is_last_frame));
 
+/*
+ * Size of the buffer websocket_compress() needs for a payload of the given length:
+ * a deflate block never grows the data by more than a few bytes, but even an empty
+ * payload needs room for the block header and the flush marker.
+ */
+#define WEBSOCKET_COMPRESS_BUFFER_SIZE(length) ((length) * 2 + 16)
+
 int websocket_compress(const struct websocket *s, uint8_t *dest, uint8_t *src, size_t length);
 
 void alloc_compression(struct websocket *ws);
